@@ -33,6 +33,7 @@ func zzFSReset() {
 	zzClock = 1000
 	zzFSLog = nil
 	zzFSUsed = true
+	zzDangling = map[string]bool{}
 }
 
 func zzTick() int64 { zzClock++; return zzClock }
@@ -123,35 +124,39 @@ func zzChtimes(name string, atime, mtime time.Time) error {
 }
 
 // glob matching itself (mvdan/sh expansion) is not encoded: a pattern with one '*'
-// matches the existing regular files with that prefix and suffix, any other
-// pattern is a literal name.
+// expands to the existing directory entries with that prefix and suffix (files, directories
+// and symbolic links whose target is missing alike: expansion reads directories, it does not
+// follow links), any other pattern and a pattern without a match to itself. What
+// fingerprint.glob makes of the entries (os.Stat, directories left out) runs from source.
 //
-//gosmt:stub github.com/go-task/task/v3/internal/fingerprint.glob
-func zzGlob(dir string, g string) ([]string, error) {
-	if dir != "" {
-		g = dir + "/" + g
-	}
+//gosmt:stub github.com/go-task/task/v3/internal/execext.ExpandFields
+func zzExpandFields(g string) ([]string, error) {
 	var out []string
 	if k := strings.Index(g, "*"); k >= 0 {
 		pre, suf := g[:k], g[k+1:]
-		for name, f := range zzFS {
-			if !f.dir && len(name) >= len(pre)+len(suf) && strings.HasPrefix(name, pre) && strings.HasSuffix(name, suf) &&
+		for name := range zzFS {
+			if len(name) >= len(pre)+len(suf) && strings.HasPrefix(name, pre) && strings.HasSuffix(name, suf) &&
+				!strings.Contains(name[len(pre):len(name)-len(suf)], "/") {
+				out = append(out, name)
+			}
+		}
+		for name := range zzDangling {
+			if len(name) >= len(pre)+len(suf) && strings.HasPrefix(name, pre) && strings.HasSuffix(name, suf) &&
 				!strings.Contains(name[len(pre):len(name)-len(suf)], "/") {
 				out = append(out, name)
 			}
 		}
 		sort.Strings(out)
-		return out, nil
-	}
-	f, ok := zzFS[g]
-	if !ok {
-		return nil, fs.ErrNotExist
-	}
-	if f.dir {
-		return nil, nil
+		if len(out) > 0 {
+			return out, nil
+		}
 	}
 	return []string{g}, nil
 }
+
+// zzDangling: symbolic links whose target does not exist: listed by a directory read, but
+// os.Stat (which follows links) does not find them.
+var zzDangling map[string]bool
 
 // ChecksumChecker.checksum feeds one hasher with, for every source file in Globs order, the
 // file's base name followed by its contents. The model keeps exactly that byte stream and
